@@ -199,7 +199,7 @@ class OPENQASMVisitor(Visitor):
         self.gate_defs['crz'] = GateDef('crz', 1, 2, CRZGate())
         self.gate_defs['fsim'] = GateDef('fsim', 2, 2, FSIMGate())
         self.gate_defs['rx'] = GateDef('rx', 1, 1, RXGate())
-        self.gate_defs['pxz'] = GateDef('pxz', 1, 3, PhasedXZGate())
+        self.gate_defs['pxz'] = GateDef('pxz', 3, 1, PhasedXZGate())
         self.gate_defs['rxx'] = GateDef('rxx', 1, 2, RXXGate())
         self.gate_defs['ry'] = GateDef('ry', 1, 1, RYGate())
         self.gate_defs['ryy'] = GateDef('ryy', 1, 2, RYYGate())
